@@ -75,7 +75,8 @@ typedef struct {
     const char *pat; /* pattern family name */
     const char *val; /* value family name */
 } gmat_t;
-enum { PAT_ANY = -1, PAT_DIAG = 0, PAT_BAND, PAT_ARROW, PAT_BLOCK, PAT_RANDOM, PAT_DENSE, PAT_TRIDIAG, PAT_NUM };
+enum { PAT_ANY = -1, PAT_DIAG = 0, PAT_BAND, PAT_ARROW, PAT_BLOCK, PAT_RANDOM, PAT_DENSE, PAT_TRIDIAG, PAT_NUM,
+       PAT_ARROWTAIL = PAT_NUM /* explicit only (never drawn by PAT_ANY): full first row+column on a leading block, decoupled tridiagonal tail */ };
 enum { VAL_ANY = -1, VAL_SMALLINT = 0, VAL_DYADIC, VAL_GENERIC, VAL_SCALED, VAL_DIAGDOM, VAL_NUM };
 /* nonsing: 1 => a random transversal is included so that the pattern is structurally nonsingular
  * (square only), 2 => the diagonal itself is included */
